@@ -38,8 +38,8 @@ def seeded():
         note = (' [' + m['status_note'] + ']') if m.get('status_note') else ''
         out.append('| %s | %s | %s | %s |' % (name, m['property'], caught, (m['needs_to_manifest'] + note).replace('|', '/')))
     out.append('')
-    out.append('%d independently seeded changes kept (four rounds); %d caught by the current checks (%d by the check of their own property, the others by '
-               'the check of the property whose clause they break in passing), %d of them only after a check was strengthened; %d made harmless by a later repair; %d missed.'
+    out.append('%d independently seeded changes kept (five rounds); %d caught by the current checks (%d by the check of their own property, the others by '
+               'the check of the property whose clause they break in passing), %d of them only after a check was strengthened; %d made harmless by a later repair; %d not caught (listed above with the reason).'
                % (n, c, own, first, h, n - c - h))
     return '\n'.join(out)
 
